@@ -177,3 +177,31 @@ PROPS.update({
         correspondence_only=["schedule independence and failure propagation of the noodles-based genotype reader path (vcf, vcf.gz, bcf, raw bcf)"],
     ),
 })
+
+ST_ASSUME = ["in-process cases call the library statistics (with the dispatch / normalisation of Statistic::calculate re-done in the harness), `st.cmd` / `st.genocli` / `foldcli` cases run the real binary (clap, the real dispatch, text output)",
+             "binary64 evaluation is compared with exact rationals within 2^-30 relative to the scale of the defining sums (D statistics: without square roots, tolerance relative to |pi| + |theta|); not proved"]
+
+PROPS.update({
+    "C06": dict(
+        theorems=["create_is_spectrum", "linear_stat", "sum_def", "S_def", "diffPairs_eq", "diffBetween_eq", "pi_def", "pixy_def", "f2_def", "f3_def", "f4_def", "fst_def",
+                  "king_def", "r0_def", "r1_def", "harmonic_eq", "watterson_published", "segregating_published", "pi_published", "tajimaD_published", "fuLiD_published"],
+        nontrivial=r"^(stmem-d[1-4]-(le171|gt171|3x3)|stcli-|stgeno-|stgenocli-)",
+        rule="estimator level: 56 (thorough 416) 1-D count spectra with n in {3..7, 10, 25, 63, 64, 100, 169..172, 200, 400} + log-uniform up to 500 (thorough 900) chromosomes, a third with many empty classes: pi, theta, Tajima's D, Fu and Li's D, S, sum; "
+             "all 14 statistics (wrong dimensionality -> the specific error) on 160 (thorough 1500) spectra with 1-4 axes of unequal length incl. 3x3, a quarter also through `sfs stat` at precision 6/12/15; "
+             "genotype level: 150 (thorough 1500) call sets with 1-4 populations of unequal size (and two-individual sets for KING/R0/R1), 1-60 (thorough 200) records with missing / multiallelic genotypes and unselected columns -> real site reader -> statistics, "
+             "compared with the definitions evaluated directly on the genotypes (Spec.g*, published estimators on the class counts); a fifth through `sfs create | sfs stat --precision 12`; non-trivial = distinct request on a spectrum with more than 4 cells or any genotype-level / CLI case",
+        exhaustive=False, assumptions=ST_ASSUME,
+        correspondence_only=["accuracy of the binary64 evaluation (2^-30 relative bound is tested, not derived)"],
+    ),
+    "C14": dict(
+        theorems=["fold_invariant_S", "fold_invariant_pi", "fold_invariant_theta", "fold_invariant_tajimaD", "fold_invariant_pixy", "fold_invariant_f2", "fold_invariant_f3", "fold_invariant_f4",
+                  "fold_invariant_fst", "fold_invariant_king", "fold_invariant_r0", "fold_invariant_r1", "f3_from_f2", "f4_from_f2",
+                  "mono_independent_S", "mono_independent_pi", "mono_independent_theta", "mono_independent_tajimaD", "mono_independent_fuLiD", "mono_independent_pixy", "mono_independent_fst", "mono_independent_king",
+                  "swap_invariant_f2", "swap_invariant_fst", "swap_invariant_pixy", "swap_invariant_king", "scale_free", "scale_linear"],
+        nontrivial=r"^strel-",
+        rule="200 (thorough 3000) count spectra with 1-4 axes of unequal length (and 3x3): for every applicable statistic the value on x and on T(x) for T in {fold with fill zero (library and `sfs fold --fill zero | sfs stat`), "
+             "replace the two monomorphic entries by random values, multiply by a constant in {2, 0.5, 3, 0.1, 1000, 7.25, 0.001}, swap the two populations}, and f3 / f4 against the f2 combination of the marginals computed with the real marginalize; "
+             "both values compared with the model, and the relation itself re-checked on the model values in exact arithmetic (a relation failing there is reported as a model-level violation); non-trivial = every distinct request",
+        exhaustive=False, assumptions=ST_ASSUME + ["swapping, scaling and replacing entries are done by the harness on the data (there is no sfs operation for them); folding and marginalisation use the real code"],
+    ),
+})
